@@ -15,3 +15,6 @@ import Solvor.Flow.Theorems
 #print axioms Solvor.Flow.ssp_sound
 #print axioms Solvor.Flow.ssp_sound_transshipment
 #print axioms Solvor.Flow.ssp_certifies_partial
+#print axioms Solvor.Flow.ssp_certifies
+#print axioms Solvor.Flow.Inst.no_negative_cycle_iff_potentials
+#print axioms Solvor.Flow.ssp_certifies_transshipment
